@@ -283,7 +283,9 @@ class SMergeSpec(SeqSpec):
             cnt = rng.choice([0, 1, 1, 2, 3])
             scripts.append([i * 1000 + x for x in range(cnt)])
             if any_err and rng.random() < 0.5:
-                fins.append(["err", 100 + i])        # error position = after cnt items: every position via cnt
+                # error position = after cnt items: every position via cnt; the code also decides what the error wraps
+                # (code % 5: context.Canceled, DeadlineExceeded, nothing, stream.End, stream.ErrClosedPipe)
+                fins.append(["err", 100 + 5 * i + rng.randrange(5)])
             else:
                 fins.append(["end"])
         total = sum(len(s) for s in scripts)
